@@ -162,6 +162,27 @@ def wrapping(c, fam='Gaussian'):
     c.holds('one_draw_is_array_with_the_distribution_geometry', isinstance(one, CUQIarray) and one.geometry == g and one.shape == (n,) and one.is_par)
     many = d.sample(4)
     c.holds('several_draws_are_a_sample_collection_with_one_column_per_draw', isinstance(many, Samples) and many.samples.shape == (n, 4) and many.geometry == g)
+    # the public wrapper returns the draws of _sample column for column: draw k of sample(N) is the k-th draw, for N below, at and above dim
+    if fam == 'Gaussian':
+        m, v = d.mean, c.vec('v', n, pos=True)
+        for N in (2, n, n + 1):
+            e = c.vec(f'w{N}_', n * N).reshape(n, N)
+            if c.sym: shims.PRESET['normal'].append(e)
+            else: c._numq['normal'].append(e); c._patch_random()
+            S = d.sample(N)
+            c.holds(f'sample({N})_has_one_column_per_draw', S.samples.shape == (n, N), note=str(S.samples.shape))
+            for k in range(N):
+                c.eq(f'sample({N})_column[{k}]_is_draw[{k}]', np.asarray(S.samples)[:, k], m + np.sqrt(v) * e[:, k], tol=1e-9)
+    else:
+        m, sd = d.mean, d.std
+        for N in (2, n, n + 1):
+            e = c.vec(f'w{N}_', n * N).reshape(N, n)              # Normal draws an (N, dim) array and transposes it
+            if c.sym: shims.PRESET['normal'].append(e)
+            else: c._numq['normal'].append(e); c._patch_random()
+            S = d.sample(N)
+            c.holds(f'sample({N})_has_one_column_per_draw', S.samples.shape == (n, N), note=str(S.samples.shape))
+            for k in range(N):
+                c.eq(f'sample({N})_column[{k}]_is_draw[{k}]', np.asarray(S.samples)[:, k], m + sd * e[k, :], tol=1e-9)
     cond = Gaussian(lambda mu: mu, 1.0, geometry=n)
     c.expect_raise('conditional_distribution_refuses_to_sample', lambda: cond.sample())
     c.expect_raise('conditional_distribution_refuses_to_sample_many', lambda: cond.sample(3))
